@@ -17,7 +17,7 @@
 #define MAXP 16
 #define MAXX 8
 #define MAXO 8
-#define MAXOPS 96
+#define MAXOPS 192
 #define MAXEXT 16
 #define MAXFLAG 64
 #define MAXKEY 48
